@@ -38,6 +38,7 @@ typedef struct vp_iface {
 /* process-wide attributes (the port API has no iface argument for these) */
 typedef struct vp_global {
     uint8_t *icon;  size_t icon_len;  int icon_present;   /* present=0: getter fails */
+    int failrc;                                            /* return code of a failing getter (0 = the default -1) */
     int empty_block;                                       /* an EMPTY icon / name is handed over as a zero-length block (non-NULL) instead of NULL */
     uint8_t *fname; size_t fname_len; int fname_present;
     uint8_t  hwid[256]; size_t hwid_len;
